@@ -82,7 +82,7 @@ def parseKey (st : State) (k : Key) : Except Err (Scope × Sel × String) :=
   | .none => .error .valueError            -- No configurable matching …
   | .one full e =>
     if e.cfg.isMethod && k.sel.length < 2 then .error .valueError  -- method without class name
-    else if !e.cfg.mightHave k.arg then .error .valueError
+    else if !e.cfg.byKeyword k.arg then .error .valueError
     else if !e.cfg.listed k.arg then .error .valueError
     else .ok (k.scope, full, k.arg)
 
